@@ -234,8 +234,12 @@ def big_stack():
 
 
 def run_model(driver, cases_text, timeout=600):
-    rc, out = sh([os.path.join(BUILD, driver)], input=cases_text, timeout=timeout)
-    return rc, out
+    """run an extracted-model driver on the given input (unlimited stack: the extracted functions are not tail recursive)"""
+    try:
+        p = subprocess.run([os.path.join(BUILD, driver)], input=cases_text, capture_output=True, text=True, timeout=timeout, preexec_fn=big_stack)
+        return p.returncode, p.stdout + (p.stderr if p.returncode != 0 else "")
+    except subprocess.TimeoutExpired as e:
+        return 124, (e.stdout or "") + "\n[timeout after %ss]" % timeout
 
 
 # ---------------------------------------------------------------- known findings
